@@ -1387,6 +1387,10 @@ def chiral_inputs(ck):
     rng = random.Random(f'{ck.seed}:chiral')
     smis = list(CHIRAL_ZOO) + list(FIX_TEMPLATES) + [t.format(*c) for t, o, _ in PSEUDO_FAMILIES for c in itertools.product(*o)][::3]
     smis += corpus.sample(corpus.stereo_smiles(), 60 if ck.tier == 'quick' else 600, ck.seed, 'c12chiral')
+    # every ring size 3..14 around an endocyclic double bond (one decoration per size in quick) and cyclic allenes / cumulenes
+    fam = ring_size_family()
+    smis += [x[2] for x in (fam if ck.tier != 'quick' else [f for k, f in enumerate(fam) if k % 4 == ck.seed % 4 or f[1] == 'fused' or f[2].count('(') == 0])]
+    smis += [f'C1{"C" * k}C(C)=[C@]=C1' for k in range(2, 10)] + [f'C1{"C" * k}/C=C=C=C/1' for k in range(1, 9)]
     out = []
     for smi in smis:
         try:
@@ -1574,6 +1578,7 @@ def search(ck, budget):
     search_stereogenic(ck, pool)
     search_mapped(ck, pool[:60 if ck.tier == 'quick' else 600])
     search_histories(ck, pool[:60 if ck.tier == 'quick' else 600])
+    search_ring_sizes(ck)
     search_allenes(ck)
     search_printable(ck)
     search_closure_double_bond(ck)
@@ -1815,6 +1820,57 @@ def search_histories(ck, pool):
                 ck.counterexample(f'history-labels:{smi}:{kind}:{n}', 'an edited molecule carries other stereo labels than the same molecule built from scratch '
                                   '(read back from its own SMILES)', {'smiles': smi, 'edit': call}, f'{text}: {la} atom / {lb} bond labels',
                                   f'{back}: {n_labels(back)[0]} atom / {n_labels(back)[1]} bond labels', 'molecule rebuilt from scratch', replay_py=replay)
+
+
+
+def ring_size_family():
+    """(ring size class, kind, E spelling, Z spelling): one endocyclic double bond in monocycles of EVERY size 3..14 (plain, hetero
+    atom next to the double bond, gem-dimethyl neighbour; unsubstituted / methyl / F,Cl substituted double bond) and in a ring fused
+    to a cyclopentane: sweeps every ring-size threshold of the stereogenicity rules from both sides"""
+    out = []
+    for size in range(3, 15):
+        chain = 'C' * max(size - 4, 0)
+        if size == 3:
+            out.append((size, 'ene', 'C1/C=C/1', 'C1/C=C\\1'))
+            continue
+        for head, tail in (('C1', 'C1'), ('O1', 'C1'), ('C1', 'N1'), ('C1', 'C1(C)C')):
+            for db in ('/C=C', '/C(C)=C', '/C(F)=C(Cl)'):
+                out.append((size, 'ene', f'{head}{chain}{db}/{tail}', f'{head}{chain}{db}\\{tail}'))
+        if size >= 6:
+            out.append((size, 'fused', f'C1{"C" * (size - 6)}C2CCCC2/C=C/1', f'C1{"C" * (size - 6)}C2CCCC2/C=C\\1'))
+    return out
+
+
+def search_ring_sizes(ck):
+    """endocyclic double bonds, every ring size: the E and the Z spelling are equal molecules for chython exactly when they are for
+    RDKit (small rings: one molecule, no label kept; from the ring size on where RDKit keeps E/Z: two), and what chython writes
+    denotes for RDKit the isomer RDKit reads from the input"""
+    from chython import smiles
+    from rdkit import Chem
+    for size, kind, e, z in ring_size_family():
+        re_, rz = Chem.MolFromSmiles(e), Chem.MolFromSmiles(z)
+        if re_ is None or rz is None:
+            continue
+        ce, cz = Chem.MolToSmiles(re_), Chem.MolToSmiles(rz)
+        try:
+            me, mz = smiles(e), smiles(z)
+        except Exception:
+            continue
+        ck.case(('ring-size', e), nontrivial=ce != cz)
+        ck.count(f'ring-size search: ring of {size} atoms' + (' (E/Z exists for RDKit)' if ce != cz else ''))
+        if (me == mz) != (ce == cz):
+            ck.counterexample(f'ring-size-ez:{e}', 'the E and Z spellings of an endocyclic double bond compare ' + ('equal' if me == mz else 'unequal') +
+                              ' although RDKit reads ' + ('two different molecules' if ce != cz else 'one molecule') + f' (ring size class {size})',
+                              {'E': e, 'Z': z}, f'{me} / {mz}', f'{ce} / {cz}', 'RDKit canonical isomeric SMILES',
+                              replay_py=f"from chython import smiles; print(smiles({e!r}), smiles({z!r}), smiles({e!r}) == smiles({z!r}))")
+            continue
+        for text, m, c in ((e, me, ce), (z, mz, cz)):
+            r = Chem.MolFromSmiles(str(m))
+            if r is not None and Chem.MolToSmiles(r) != c:
+                ck.counterexample(f'ring-size-denotes:{text}', 'the SMILES chython writes for an endocyclic double bond denotes another isomer for RDKit than the input',
+                                  {'smiles': text}, f'{m} (RDKit: {Chem.MolToSmiles(r)})', c, 'RDKit canonical isomeric SMILES',
+                                  replay_py=f"from chython import smiles; print(smiles({text!r}))")
+                break
 
 
 
